@@ -26,7 +26,13 @@ exactly equal to the bound; `legal_fp_schedule_exists`).  Realisability of the t
 families named in the statement: periodic / sporadic with jitter (`sporadic_realisable`) and
 auto-extrapolating super-additive delta-min curves (`extrapolating_curve_realisable`: the
 densest event sequence is admissible and has exactly `number_arrivals(Δ)` events in every
-window starting at the critical instant). -/
+window starting at the critical instant).
+
+The existential statement of the property itself — there IS a legal schedule in which some job
+has a response time equal to the bound — is proved for every task set that MIXES the three
+families (`fifo_bound_is_attained_mixed`, `fp_preemptive_bound_is_attained_mixed`,
+`fp_nonpreemptive_bound_is_attained_mixed`; `Lemmas/TightExistsMixed.lean`, generic in a
+realisability witness `RealisableAt`). -/
 
 namespace RTA.C18
 open RTA RTA.Sched RTA.Spec
